@@ -498,11 +498,25 @@ func oned39SymbolRow(r *Rng, kind string) ([]bool, string) {
 			return []bool{true, false, true}, "tiny"
 		}
 	}
+	if kind == "c93" && r.Chance(0.2) {
+		// a complete symbol WITHOUT its termination bar, white up to the row end: the reader's `nextStart == end`
+		// test is all that keeps `row.Get(nextStart)` inside the row (inside the last word when size % 32 != 0)
+		s := c06FromAlphabet(r, c06Code93Alpha[:43], 0, 6)
+		sym := c06Code93Row(s, true)
+		sym = sym[:len(sym)-1]
+		k := r.Pick([]int{1, 1, 2, 3})
+		row := append(c06White(r.Pick([]int{0, 1, 5, 10})), c06Scale(sym, k)...)
+		row = append(row, c06White(r.Pick([]int{0, 0, 1, 7, 20}))...)
+		return oned39Align(r, row), "c93-no-termination-bar"
+	}
 	row := c06Frame(r, base)
 	for k := r.Pick([]int{0, 0, 1, 1, 2, 3}); k > 0; k-- {
 		var how string
 		row, how = c06MutateRow(r, row)
 		class = "mutated-" + how
+	}
+	if r.Chance(0.2) {
+		row = oned39Align(r, row)
 	}
 	if r.Chance(0.1) {
 		f2 := c06OnedFormats[r.Intn(len(c06OnedFormats))]
@@ -512,6 +526,23 @@ func oned39SymbolRow(r *Rng, kind string) ([]bool, string) {
 		}
 	}
 	return row, class
+}
+
+// oned39Align pads the row with white pixels to a multiple of 32 (mostly) or to one pixel off a multiple:
+// BitArray keeps 32 pixels per word, reads at index == size stay inside the last word unless size % 32 == 0
+func oned39Align(r *Rng, row []bool) []bool {
+	pad := (32 - len(row)%32) % 32
+	switch r.Intn(4) {
+	case 0:
+		pad++
+	case 1:
+		if pad > 0 {
+			pad--
+		} else {
+			pad = 31
+		}
+	}
+	return append(row, c06White(pad)...)
 }
 
 var oned39Kinds = []string{"c39", "c93", "cb"}
